@@ -340,6 +340,91 @@ theorem itemBody_mean (Γ : Ctx) (rec : Rec) (st : Nat) (E : List Char) (a : Boo
   simp only [htrim, hps]
   simp [Sub.isEmpty, closerOf, isDigit]
 
+/-! ## function calls -/
+
+theorem find_closing_bracket (o c : Char) (E R : List Char) (ho : isOpen o = true) (hc : isClose c = true) (hE : Bal E) :
+    (find [.closing] (o :: (E ++ c :: R))).offset = E.length + 1 := by
+  have hoc := not_close_of_open o ho
+  have h1 : findGo [.closing] (E ++ c :: R) 1 1 = some (0, 1 + E.length, 1) := by
+    rw [findGo_skip [.closing] (c :: R) E 1 1 (topAll_inner _ _ E 0 1 hE.1 (by simp)), hE.2]
+    simp [findGo_cons, lvlClose, hc, firstMatch, Matcher.run]
+  simp only [find, findGo_cons, lvlClose, hoc, Bool.false_eq_true, if_false, if_true, firstMatch, Matcher.run, lvlOpen, ho]
+  simp only [show ((0 : Int) + 1) = 1 from rfl, show (0 + 1 : Nat) = 1 from rfl, ne_eq, not_true_eq_false, if_false, h1]
+  omega
+
+theorem partitionScope_call (st : Nat) (H E : List Char) (hH : H.all plain = true) (hE : Bal E) :
+    (⟨st, H ++ '(' :: (E ++ [')'])⟩ : Sub).partitionScope =
+      ⟨⟨st, H⟩, ⟨st + H.length, ['(']⟩, ⟨st + (H.length + 1), E⟩, ⟨st + (H.length + (E.length + 1)), [')']⟩,
+       ⟨st + (H.length + (E.length + 2)), []⟩⟩ := by
+  have hopen : (⟨st, H ++ '(' :: (E ++ [')'])⟩ : Sub).openAt = H.length := by
+    have := find_sep [.opening] H '(' (E ++ [')']) 0 1
+      (topAll_of_heads _ plain _ (fun c tl hc => noMatch_opening_plain c tl hc) H 0 (topHeads_all plain H 0 hH))
+      (Bal.of_plain H hH).2 (by decide) (by simp [firstMatch, Matcher.run, show isOpen '(' = true from by decide])
+    simp [Sub.openAt, this]
+  have hclose : (⟨st, H ++ '(' :: (E ++ [')'])⟩ : Sub).closeAt = E.length + 1 + H.length := by
+    simp only [Sub.closeAt, hopen, List.drop_left']
+    rw [find_closing_bracket '(' ')' E [] (by decide) (by decide) hE]
+  simp only [Sub.partitionScope, hopen, hclose, Sub.takeN, Sub.slice, Sub.dropN, Sub.len]
+  have e1 : List.drop H.length (H ++ '(' :: (E ++ [')'])) = '(' :: (E ++ [')']) := List.drop_left' rfl
+  have e2 : List.drop (H.length + 1) (H ++ '(' :: (E ++ [')'])) = E ++ [')'] := by
+    rw [show H ++ '(' :: (E ++ [')']) = (H ++ ['(']) ++ (E ++ [')']) by simp]; exact List.drop_left' (by simp)
+  have e3 : List.drop (E.length + 1 + H.length) (H ++ '(' :: (E ++ [')'])) = [')'] := by
+    rw [show H ++ '(' :: (E ++ [')']) = (H ++ '(' :: E) ++ [')'] by simp]; exact List.drop_left' (by simp; omega)
+  have e4 : List.drop (E.length + 1 + H.length + 1) (H ++ '(' :: (E ++ [')'])) = [] := by
+    apply List.drop_eq_nil_of_le; simp; omega
+  simp only [List.take_left', e1, e2, e3, e4, List.length_append, List.length_cons, List.length_nil]
+  simp
+  refine ⟨?_, ?_, ?_⟩
+  · rw [show E.length + 1 + H.length - (H.length + 1) = E.length by omega]; exact List.take_left' rfl
+  · omega
+  · omega
+
+theorem itemBody_call (Γ : Ctx) (rec : Rec) (st : Nat) (name idx E : List Char) (a : Bool)
+    (hn : nameOK name = true) (hi : idx.all idxChar = true) (hE : Bal E) :
+    toOpt (itemBody Γ rec ⟨st, (name ++ (if idx.isEmpty then [] else '_' :: idx)) ++ ('(' :: E ++ [')'])⟩ a) =
+      (toOpt (rec ⟨st + ((name ++ (if idx.isEmpty then [] else '_' :: idx)).length + 1), E⟩)).bind fun arg =>
+        match Γ.lookupFn name with
+        | none => none
+        | some gen =>
+          if gen.length != idx.length then none
+          else (toOpt (genIndicesGo (.call name idx.length arg.ops) (arg.shape ++ gen) arg.indices ⟨0, idx⟩)).bind fun g =>
+            toOpt (trace noSub g.1 g.2.1 g.2.2 [arg.summed]) := by
+  have hf := call_item name idx E hn hi hE
+  have htrim := trim_of_ends st _ hf.ends
+  match name, hn with
+  | c :: cs, hn =>
+    simp only [nameOK, Bool.and_eq_true] at hn
+    have hc := nameStart_facts c hn.1
+    have hnall : (c :: cs).all nameChar = true := by simp [hc.1, hn.2]
+    have hplain := var_plain (c :: cs) idx hnall hi
+    obtain ⟨hname, st', hgen⟩ := partition_us st (c :: cs) idx hnall hi
+    generalize hH : (c :: cs) ++ (if idx.isEmpty then [] else '_' :: idx) = H at *
+    have hps := partitionScope_call st H E hplain hE
+    have hHc : ∃ tl, H = c :: tl := ⟨cs ++ (if idx.isEmpty then [] else '_' :: idx), by rw [← hH]; rfl⟩
+    obtain ⟨tl, hHtl⟩ := hHc
+    simp only [List.cons_append] at htrim hps ⊢
+    unfold itemBody
+    simp only [htrim, hps]
+    rw [hHtl]
+    simp only [List.cons_append, hc.2.2.1, hc.2.2.2, Bool.or_self, Bool.false_eq_true, if_false]
+    rw [← hHtl]
+    have hHne : H.isEmpty = false := by rw [hHtl]; rfl
+    simp only [hname, hgen, Sub.isEmpty, List.isEmpty_nil, List.isEmpty_cons, Bool.not_true, Bool.not_false, Bool.false_and, Bool.true_and,
+      Bool.false_eq_true, if_false, if_true, hHne, closerOf, beq_self_eq_true, bne_self_eq_false, Sub.len, toOpt_bind, Option.bind_assoc]
+    congr 1; funext arg
+    cases Γ.lookupFn (c :: cs) with
+    | none => simp only [toOpt_fail, Option.bind_none]
+    | some gen =>
+      simp only []
+      by_cases hlen : gen.length = idx.length
+      · have hne : (gen.length != idx.length) = false := by simp [hlen]
+        simp only [hne, Bool.false_eq_true, if_false, toOpt_ok, Option.bind_some]
+        rw [toOpt_genIndicesGo idx _ _ _ st' 0]
+        congr 1; funext g
+        exact toOpt_trace _ _ _ _ _ _
+      · have hne : (gen.length != idx.length) = true := by simp [hlen]
+        simp only [hne, if_true, toOpt_fail, Option.bind_none]
+
 /-! ## powers, terms, fractions -/
 
 theorem splitL_none (ms : List Matcher) (st : Nat) (p : List Char) (h : find ms p = ⟨none, p.length, 0⟩) :
@@ -555,6 +640,220 @@ theorem powerBody_powExpr (Γ : Ctx) (rec : Rec) (st : Nat) (B X : List Char) (a
   congr 1; funext base
   congr 1; funext ex
   exact toOpt_scalar_tail _ _ _ .pow base ex
+
+/-! ## decimal literals -/
+
+theorem splitAtFirst_none (p : Char → Bool) (A : List Char) (hA : ∀ x ∈ A, p x = false) : splitAtFirst p A = (A, none) := by
+  induction A with
+  | nil => rfl
+  | cons a A ih =>
+    simp only [splitAtFirst, hA a List.mem_cons_self, Bool.false_eq_true, if_false, ih (fun x hx => hA x (List.mem_cons_of_mem _ hx))]
+
+theorem splitAtFirst_append (p : Char → Bool) (A B : List Char) (c : Char) (hA : ∀ x ∈ A, p x = false) (hc : p c = true) :
+    splitAtFirst p (A ++ c :: B) = (A, some B) := by
+  induction A with
+  | nil => simp [splitAtFirst, hc]
+  | cons a A ih =>
+    simp only [List.cons_append, splitAtFirst, hA a List.mem_cons_self, Bool.false_eq_true, if_false, ih (fun x hx => hA x (List.mem_cons_of_mem _ hx))]
+
+theorem digitPart_chars (n : Nat) : ∀ (l : List Char) (ds : List Nat), l.length ≤ n → digitPart l = some ds →
+    ∀ c ∈ l, (isDigit c || c == '_') = true := by
+  induction n with
+  | zero =>
+    intro l ds hl h
+    cases l with
+    | nil => simp [digitPart] at h
+    | cons _ _ => simp at hl
+  | succ n ih =>
+    intro l ds hl h
+    cases l with
+    | nil => simp [digitPart] at h
+    | cons c rest =>
+      cases rest with
+      | nil =>
+        simp only [digitPart] at h
+        split at h
+        · rename_i hc; intro x hx; simp only [List.mem_singleton] at hx; subst hx; simp [hc]
+        · simp at h
+      | cons d cs =>
+        by_cases hd : d = '_'
+        · subst hd
+          simp only [digitPart] at h
+          split at h
+          · rename_i hc
+            cases hdd : digitPart cs with
+            | none => simp [hdd] at h
+            | some dd =>
+              have := ih cs dd (by simp at hl; omega) hdd
+              intro x hx
+              simp only [List.mem_cons] at hx
+              rcases hx with rfl | rfl | hx
+              · simp [hc]
+              · simp
+              · exact this x hx
+          · simp at h
+        · rw [digitPart] at h
+          · split at h
+            · rename_i hc
+              cases hdd : digitPart (d :: cs) with
+              | none => simp [hdd] at h
+              | some dd =>
+                have := ih (d :: cs) dd (by simp at hl ⊢; omega) hdd
+                intro x hx
+                rcases List.mem_cons.mp hx with rfl | hx
+                · simp [hc]
+                · exact this x hx
+            · simp at h
+          · intro e; exact hd e
+
+theorem digitPart_none_of_mem (l : List Char) (c : Char) (hc : c ∈ l) (h : (isDigit c || c == '_') = false) : digitPart l = none := by
+  cases hd : digitPart l with
+  | none => rfl
+  | some ds => have := digitPart_chars l.length l ds (Nat.le_refl _) hd c hc; rw [h] at this; simp at this
+
+theorem digitPart_digits' (ds : List Nat) (h : digitsOK ds = true) : digitPart (ds.map digitChar) = some ds := by
+  obtain ⟨hne, hall⟩ := digitsOK_iff ds h
+  exact digitPart_digits ds (by intro e; subst e; simp at hne) (fun d hd => by simpa using (List.all_eq_true.mp hall) d hd)
+
+theorem mem_decText_marker (ip : List Nat) (fp : Option (List Nat)) (ex : Option (Bool × List Nat)) (h : decOK ip fp ex = true) :
+    '.' ∈ decText ip fp ex ∨ 'e' ∈ decText ip fp ex := by
+  simp only [decOK, Bool.and_eq_true] at h
+  cases fp with
+  | some f => left; simp [decText, numText]
+  | none =>
+    cases ex with
+    | none => simp at h
+    | some p => right; obtain ⟨neg, ds⟩ := p; simp [decText, expSuffix]
+
+theorem pyInt_dec_none (ip : List Nat) (fp : Option (List Nat)) (ex : Option (Bool × List Nat)) (h : decOK ip fp ex = true) :
+    pyInt (decText ip fp ex) = none := by
+  have hf := dec_item ip fp ex h
+  obtain ⟨c, cs, hc, hs⟩ := hf.ends.head
+  have hdp : digitPart (decText ip fp ex) = none := by
+    rcases mem_decText_marker ip fp ex h with hm | hm
+    · exact digitPart_none_of_mem _ '.' hm (by decide)
+    · exact digitPart_none_of_mem _ 'e' hm (by decide)
+  simp only [startOK, Bool.not_eq_true', Bool.or_eq_false_iff] at hs
+  unfold pyInt
+  rw [hc] at hdp ⊢
+  split
+  · rename_i r heq
+    simp only [List.cons.injEq] at heq
+    have := hs.1.1.1.2; rw [heq.1] at this; simp at this
+  · rename_i r heq
+    simp only [List.cons.injEq] at heq
+    have := hs.1.1.2; rw [heq.1] at this; simp at this
+  · rw [hdp]; rfl
+
+theorem digits_no (ds : List Nat) (hall : ds.all (· < 10) = true) (q : Char → Bool) (hq : ∀ c, isDigit c = true → q c = false) :
+    ∀ x ∈ ds.map digitChar, q x = false :=
+  fun x hx => hq x (digits_chars ds hall x hx).2
+
+theorem pyFloat_dec (ip : List Nat) (fp : Option (List Nat)) (ex : Option (Bool × List Nat)) (h : decOK ip fp ex = true) :
+    pyFloat (decText ip fp ex) = some (decValue ip fp ex) := by
+  simp only [decOK, Bool.and_eq_true] at h
+  obtain ⟨⟨hip, hfp⟩, hex⟩ := h
+  have hE : ∀ c, isDigit c = true → (c == 'e' || c == 'E') = false := by
+    intro c hc
+    simp only [isDigit, Bool.and_eq_true, decide_eq_true_eq] at hc
+    have h1 : 48 ≤ c.toNat := hc.1
+    have h2 : c.toNat ≤ 57 := hc.2
+    have : ∀ d : Char, 57 < d.toNat → (c == d) = false := by
+      intro d hd; cases hcd : c == d with
+      | false => rfl
+      | true => have := eq_of_beq hcd; subst this; omega
+    simp [this 'e' (by decide), this 'E' (by decide)]
+  have hD : ∀ c, isDigit c = true → (c == '.') = false := by
+    intro c hc
+    simp only [isDigit, Bool.and_eq_true, decide_eq_true_eq] at hc
+    have h1 : 48 ≤ c.toNat := hc.1
+    cases hcd : c == '.' with
+    | false => rfl
+    | true => have := eq_of_beq hcd; subst this; simp at h1
+  -- the number part (before the exponent)
+  have hN : ∀ x ∈ numText ip fp, (x == 'e' || x == 'E') = false := by
+    intro x hx
+    simp only [numText, List.mem_append] at hx
+    rcases hx with hx | hx
+    · exact digits_no ip hip _ hE x hx
+    · cases fp with
+      | none => simp at hx
+      | some f =>
+        simp only [Bool.and_eq_true] at hfp
+        simp only [List.mem_cons] at hx
+        rcases hx with rfl | hx
+        · decide
+        · exact digits_no f hfp.1 _ hE x hx
+  have hsplitE : splitAtFirst (fun c => c == 'e' || c == 'E') (decText ip fp ex) =
+      (numText ip fp, ex.map fun p => expoText p.1 p.2) := by
+    cases ex with
+    | none => simp only [decText, expSuffix, List.append_nil, Option.map_none]; exact splitAtFirst_none _ _ hN
+    | some p => obtain ⟨neg, ds⟩ := p; simp only [decText, expSuffix, Option.map_some]; exact splitAtFirst_append _ _ _ 'e' hN (by decide)
+  have hsplitD : splitAtFirst (· == '.') (numText ip fp) = (ip.map digitChar, fp.map (·.map digitChar)) := by
+    cases fp with
+    | none => simp only [numText, List.append_nil, Option.map_none]; exact splitAtFirst_none _ _ (digits_no ip hip _ hD)
+    | some f => simp only [numText, Option.map_some]; exact splitAtFirst_append _ _ _ '.' (digits_no ip hip _ hD) (by decide)
+  unfold pyFloat
+  simp only [hsplitE, hsplitD]
+  -- the mantissa
+  cases fp with
+  | none =>
+    simp only [Bool.and_eq_true, Bool.not_eq_true', List.isEmpty_iff] at hfp
+    have hipd : digitPart (ip.map digitChar) = some ip := digitPart_digits' ip (by simp [digitsOK, hip]; intro e; subst e; simp at hfp)
+    cases ex with
+    | none => simp [hipd, decValue]
+    | some p => obtain ⟨neg, ds⟩ := p; simp [hipd, decValue, pyInt_expo neg ds hex]
+  | some f =>
+    simp only [Bool.and_eq_true] at hfp
+    cases f with
+    | nil =>
+      have hne : ip ≠ [] := by intro e; subst e; simp at hfp
+      have hipd : digitPart (ip.map digitChar) = some ip := digitPart_digits' ip (by simp [digitsOK, hip]; exact hne)
+      cases ex with
+      | none => simp [hipd, decValue]
+      | some p => obtain ⟨neg, ds⟩ := p; simp [hipd, decValue, pyInt_expo neg ds hex]
+    | cons f0 fs =>
+      have hfd : digitPart ((f0 :: fs).map digitChar) = some (f0 :: fs) := digitPart_digits' _ (by simp [digitsOK]; simpa using hfp.1)
+      cases ip with
+      | nil =>
+        simp only [List.map_cons] at hfd
+        cases ex with
+        | none => simp [hfd, decValue]
+        | some p => obtain ⟨neg, ds⟩ := p; simp [hfd, decValue, pyInt_expo neg ds hex]
+      | cons i0 is =>
+        have hipd : digitPart ((i0 :: is).map digitChar) = some (i0 :: is) := digitPart_digits' _ (by simp [digitsOK]; simpa using hip)
+        simp only [List.map_cons] at hfd hipd
+        cases ex with
+        | none => simp [hfd, hipd, decValue]
+        | some p => obtain ⟨neg, ds⟩ := p; simp [hfd, hipd, decValue, pyInt_expo neg ds hex]
+
+theorem itemBody_dec (Γ : Ctx) (rec : Rec) (st : Nat) (ip : List Nat) (fp : Option (List Nat)) (ex : Option (Bool × List Nat)) (a : Bool)
+    (h : decOK ip fp ex = true) :
+    toOpt (itemBody Γ rec ⟨st, decText ip fp ex⟩ a) = elabPower Γ (.dec ip fp ex) a := by
+  have hf := dec_item ip fp ex h
+  have htrim := trim_of_ends st _ hf.ends
+  have hcs : ∃ c cs, decText ip fp ex = c :: cs ∧ (isDigit c || c == '.') = true := by
+    simp only [decOK, Bool.and_eq_true] at h
+    cases ip with
+    | cons d ds =>
+      have := digitChar_facts d (by have := h.1.1; simp only [List.all_cons, Bool.and_eq_true, decide_eq_true_eq] at this; exact this.1)
+      exact ⟨digitChar d, decText ds fp ex, rfl, by simp [this.1]⟩
+    | nil =>
+      cases fp with
+      | none => simp at h
+      | some f => exact ⟨'.', (decText [] (some f) ex).tail, rfl, by decide⟩
+  obtain ⟨c, cs, hc, hcd⟩ := hcs
+  have hint : parseUnsignedInt ⟨st, decText ip fp ex⟩ = fail .expectedInt (⟨st, decText ip fp ex⟩ : Sub).trimOr := by
+    unfold parseUnsignedInt; rw [htrim]; simp only [pyInt_dec_none ip fp ex h]
+  have hfloat : parseUnsignedFloat ⟨st, decText ip fp ex⟩ = .ok ⟨.float (decValue ip fp ex).1 (decValue ip fp ex).2, [], [], []⟩ := by
+    unfold parseUnsignedFloat; rw [htrim]; simp only [pyFloat_dec ip fp ex h]
+  unfold itemBody
+  simp only [htrim]
+  rw [hc] at hint hfloat ⊢
+  simp only [hcd, if_true]
+  cases a
+  · simp [elabPower]
+  · simp only [Bool.not_true, Bool.false_eq_true, if_false, hint, hfloat, fail, elabPower, if_true, toOpt_ok]
 
 /-! ## the main induction -/
 
@@ -779,6 +1078,20 @@ theorem item_goal_mean (Γ : Ctx) (base : Rec) (e : Src) (he : e.ok .expr = true
     rw [ih m (by omega) (st + 1)]
     simp only [elabPower]
 
+theorem item_goal_call (Γ : Ctx) (base : Rec) (name idx : List Char) (arg : Src) (hn : nameOK name = true) (hi : idx.all idxChar = true)
+    (he : arg.ok .expr = true) (n : Nat) (hlen : (name ++ (if idx.isEmpty then [] else '_' :: idx)).length + (arg.print.length + 2) < n)
+    (ih : ∀ m, arg.print.length < m → Goal Γ (parseExprB Γ base m) .expr arg) (st : Nat) (a : Bool) :
+    toOpt (itemBody Γ (parseExprB Γ base n) ⟨st, (name ++ (if idx.isEmpty then [] else '_' :: idx)) ++ ('(' :: arg.print ++ [')'])⟩ a) =
+      elabPower Γ (.call name idx arg) a := by
+  have hb : Bal arg.print := print_facts arg .expr he
+  match n, hlen with
+  | m + 1, hlen =>
+    rw [itemBody_call Γ _ st name idx arg.print a hn hi hb]
+    have : toOpt (parseExprB Γ base (m + 1) ⟨st + ((name ++ (if idx.isEmpty then [] else '_' :: idx)).length + 1), arg.print⟩) = elabExpr Γ arg :=
+      ih m (by omega) _
+    rw [this]
+    rfl
+
 theorem parse_print_goal (Γ : Ctx) (base : Rec) (t : Src) : ∀ k, t.ok k = true → ∀ n, t.print.length < n →
     Goal Γ (parseExprB Γ base n) k t := by
   induction t with
@@ -789,6 +1102,13 @@ theorem parse_print_goal (Γ : Ctx) (base : Rec) (t : Src) : ∀ k, t.ok k = tru
       show toOpt (powerBody Γ _ ⟨st, ds.map digitChar⟩ a) = _
       rw [powerBody_item Γ _ st _ a (digits_item ds (digitsOK_iff ds h).1 (digitsOK_iff ds h).2)]
       exact itemBody_num Γ _ st ds a (digitsOK_iff ds h).1 (digitsOK_iff ds h).2
+  | dec ip fp ex =>
+    intro k h n _; cases k <;> simp only [Src.ok, Bool.false_eq_true] at h
+    · intro st a; exact itemBody_dec Γ _ st ip fp ex a h
+    · intro st a
+      show toOpt (powerBody Γ _ ⟨st, decText ip fp ex⟩ a) = _
+      rw [powerBody_item Γ _ st _ a (dec_item ip fp ex h)]
+      exact itemBody_dec Γ _ st ip fp ex a h
   | var name idx =>
     intro k h n _; cases k <;> simp only [Src.ok, Bool.false_eq_true, Bool.and_eq_true] at h
     · intro st a; exact itemBody_var Γ _ st name idx a h.1 h.2
@@ -820,6 +1140,14 @@ theorem parse_print_goal (Γ : Ctx) (base : Rec) (t : Src) : ∀ k, t.ok k = tru
       show toOpt (powerBody Γ _ ⟨st, '{' :: (e.print ++ ['}'])⟩ a) = _
       rw [powerBody_item Γ _ st _ a (by simpa using item_facts_bracket '{' '}' e.print (by decide) (by decide) (print_facts e .expr h))]
       exact item_goal_mean Γ base e h n (by omega) (fun m hm => ih .expr h m hm) st a
+  | call name idx arg ih =>
+    intro k h n hn; cases k <;> simp only [Src.ok, Bool.false_eq_true, Bool.and_eq_true] at h
+    all_goals simp only [Src.print, List.length_cons, List.length_append, List.length_nil] at hn
+    · intro st a; exact item_goal_call Γ base name idx arg h.1.1 h.1.2 h.2 n (by simp only [List.length_append]; omega) (fun m hm => ih .expr h.2 m hm) st a
+    · intro st a
+      show toOpt (powerBody Γ _ ⟨st, (name ++ (if idx.isEmpty then [] else '_' :: idx)) ++ ('(' :: arg.print ++ [')'])⟩ a) = _
+      rw [powerBody_item Γ _ st _ a (call_item name idx _ h.1.1 h.1.2 (print_facts arg .expr h.2))]
+      exact item_goal_call Γ base name idx arg h.1.1 h.1.2 h.2 n (by simp only [List.length_append]; omega) (fun m hm => ih .expr h.2 m hm) st a
   | powInt b neg ds ih =>
     intro k h n hn; cases k <;> simp only [Src.ok, Bool.false_eq_true, Bool.and_eq_true] at h
     simp only [Src.print, List.length_cons, List.length_append] at hn
